@@ -110,6 +110,10 @@ def emit(name, body, thorough):
 for fam, lst in (("int", INT), ("float", FLOAT), ("bool", BOOL)):
     for (n, ctor, op, prim, arity, dest, heavy) in lst:
         q, t = depths(arity, heavy)
+        if (fam == "int" and n in ("power", "protected_divide", "mod")) or (fam == "float" and n in ("multiply", "protected_divide")):
+            # full-width multiplier / divider kernels one element deeper than "exactly enough": every one of them ran
+            # into the 25 min cap in the thorough validation run (vp run #7); the depth adds an untouched element only
+            t = [d for d in t if d <= arity]
         for tier, ds in ((False, q), (True, t)):
             for d in ds:
                 di, df, db = tuple_for(prim, d, dest, 1, 0 if heavy else 1)
